@@ -17,12 +17,14 @@ import uuid
 import pytz
 
 from .. import core, oracles, fixtures, values
-from ..fixtures import Call, NT, NT0, NT3, Color, IE, SE, Fl, f, factory
+from ..fixtures import Call, NT, NT0, NT3, Color, IE, SE, Fl, f, factory, Period, Shift, FloatE, BytesE
 
 PROPERTY = 'C07'
 LEVEL = 'exploration'
 
 CONTENTS = [1, 'x', [2, 3], None]
+# a string with both kinds of quotes, long enough to be split inside the containers that hold it
+QUOTED = 'say "hi" to it\'s owner, then "leave" at once and don\'t look back'
 
 
 def namespace():
@@ -124,6 +126,10 @@ def misc_values():
     yield from Color
     yield from IE
     yield from SE
+    yield from Period      # Enum members with a timedelta / time / float / bytes mixin
+    yield from Shift
+    yield from FloatE
+    yield from BytesE
     yield Fl.X
     yield Fl.Y
     yield functools.partial(f)
@@ -132,6 +138,12 @@ def misc_values():
         yield functools.partial(f, a)
         yield functools.partial(f, a, k=b)
         yield functools.partial(f, a, b, k=a, j=b)
+    yield ValueError(QUOTED)
+    yield collections.OrderedDict([(QUOTED, 1)])
+    yield collections.deque([QUOTED, 1])
+    yield NT(QUOTED, 1)
+    yield types.SimpleNamespace(a=QUOTED)
+    yield functools.partial(f, QUOTED)
     for E in (ValueError, KeyError, OSError, StopIteration, Exception, ZeroDivisionError):
         yield E()
         for a in CONTENTS:
@@ -152,6 +164,10 @@ def all_values():
 
 
 def eq(a, b):
+    if isinstance(b, enum.Enum):
+        # a member of a mixin Enum (class Period(timedelta, Enum)) may be printed by the mixin type's printer:
+        # the result is an equal object of that base type, which is all the statement asks for
+        return a is b or (type(a) in type(b).__mro__ and a == b)
     if type(a) is not type(b):
         return False
     if isinstance(a, BaseException):
